@@ -165,6 +165,10 @@ def overrideRegs (k : String) (m : Meta) (syms : List Symbol) : Meta :=
 
 /-! ## slices -/
 
+/-- `a - b` in `uint64` arithmetic, for `a, b < 2^64` (written without `a + 2^64`, which
+Lean's unifier would unfold as 2^64 successors) -/
+def wrapSub (a b : Nat) : Nat := if b ≤ a then a - b else U64 - (b - a)
+
 /-- Go `data[off : off+size]` with uint64 wrap-around of `off+size`; `none` = panic.
 (cap = len for the buffers `debug/elf` returns.) -/
 def sliceU64 (d : Bytes) (off size : Nat) : Option Bytes :=
@@ -224,7 +228,7 @@ def findV5 (secs : List Section) (k : String) (syms : List Symbol) : KdLookup :=
         | none => .none
         | some sec =>
           if sec.name == ".rodata" then
-            let off := (s.value + U64 - ro.addr % U64) % U64
+            let off := wrapSub s.value ro.addr
             let hi := (off + 64) % U64
             if hi ≤ rod.length then
               if off ≤ hi then
@@ -247,7 +251,7 @@ def loadNamed (secs : List Section) (text : Section) (td : Bytes) (syms : List S
   match (syms.filter (isKernelSym secs)).find? (·.name == k) with
   | none => .fatal "notfound"
   | some s =>
-    let off := (s.value + U64 - text.addr % U64) % U64
+    let off := wrapSub s.value text.addr
     match sliceU64 td off s.size with
     | none => .fault
     | some kdata =>
